@@ -25,6 +25,12 @@ def gen_inputs(ctx):
             via = "wallet" if (c in ("zero", "ones") or rng.random() < 0.03) else "bip39"
             hx = b.hex() if rng.random() < 0.8 else b.hex().upper()
             out.append(("Mnemonic", {"hex": T(hx), "via": via}, ("legal", n, c, via)))
+    # entropy whose hex spelling uses a restricted set of digits (only 1-6: also a string of dice rolls; only 0/1: also
+    # binary; only decimal digits; only letters), legal sizes and illegal ones
+    for digits, dc in (("123456", "dice"), ("01", "binary"), ("0123456789", "decimal"), ("abcdef", "letters"), ("1", "ones"), ("6", "sixes")):
+        for n in (16, 20, 24, 28, 32, 25, 33, 40, 64):
+            hx = "".join(rng.choice(digits) for _ in range(2 * n))
+            out.append(("Mnemonic", {"hex": T(hx), "via": rng.choice(["bip39", "wallet"])}, ("restricted-digits", dc, n in SIZES)))
     # rejection clause: every other byte length 0..64
     for n in range(0, 65):
         if n in SIZES:
